@@ -94,12 +94,31 @@ func shell(tag string) {
 			if len(f) > 2 {
 				body = f[2]
 			}
-			st, b, err := w.HTTP(f[0], f[1], []byte(body))
+			bb := []byte(body)
+			if strings.HasPrefix(body, "@") {
+				bb, _ = os.ReadFile(body[1:])
+			}
+			st, b, err := w.HTTP(f[0], f[1], bb)
 			if err != nil {
 				fmt.Println("ERR", err)
 				return
 			}
-			fmt.Printf("%s %s -> %d %s\n", f[0], f[1], st, string(b))
+			printable := true
+			for _, c := range b {
+				if c < 9 || c > 126 {
+					printable = false
+					break
+				}
+			}
+			if printable {
+				fmt.Printf("%s %s -> %d %s\n", f[0], f[1], st, string(b))
+			} else {
+				n := len(b)
+				if n > 96 {
+					n = 96
+				}
+				fmt.Printf("%s %s -> %d [%d bytes] %x\n", f[0], f[1], st, len(b), b[:n])
+			}
 		}
 	}
 }
